@@ -30,4 +30,36 @@ example : (poscDb.addCategory (Sym.ofString "my cat") (Sym.ofString "volume")
     = some (some (some [Sym.ofString "Mm3", Sym.ofString "m3"], Sym.ofString "MMm3")) := by
   decide +kernel
 
+-- a category registered with a NON-ZERO default value (1000 m3/d, minimum 0): the value-less scalar
+-- in the legacy spelling '1000m3/d' carries the converted default (1 Mm3/d), like the current spelling
+example : ((poscDb.addCategoryFull (Sym.ofString "c16 gas rate") (Sym.ofString "volume flow rate") none
+      (some (Sym.ofString "m3/d")) 1 false (some 1000) (some 0) none false false).toOption.map
+      (fun d => (d.createDefault (Sym.ofString "c16 gas rate") (some (Sym.ofString "1000m3/d")),
+                 d.createDefault (Sym.ofString "c16 gas rate") (some (Sym.ofString "Mm3/d")),
+                 d.createDefault (Sym.ofString "c16 gas rate") none)))
+    = some (.ok (⟨Sym.ofString "c16 gas rate", Sym.ofString "Mm3/d"⟩, 1),
+            .ok (⟨Sym.ofString "c16 gas rate", Sym.ofString "Mm3/d"⟩, 1),
+            .ok (⟨Sym.ofString "c16 gas rate", Sym.ofString "m3/d"⟩, 1000)) := by
+  decide +kernel
+-- the hypotheses of `posc_registered_exact_alias` are met by that registration
+example : (poscDb.addCategoryFull (Sym.ofString "c16 gas rate") (Sym.ofString "volume flow rate") none
+      (some (Sym.ofString "1000m3/d")) 1 false (some 1000) (some 0) none false false).toOption.isSome = true
+    ∧ poscDb.units.all (fun r => Sym.ofString "c16 gas rate" != r.qtype) = true := by
+  decide +kernel
+-- value-less FixedArray of dimension 3 in a legacy spelling
+example : poscDb.createDefaultList 3 (Sym.ofString "volume") (some (Sym.ofString "1000ft3"))
+    = .ok (⟨Sym.ofString "volume", Sym.ofString "Mcf"⟩, [0, 0, 0]) := by decide +kernel
+-- registration with limits: default below the minimum is an AssertionError, crossed limits a ValueError,
+-- an exclusive limit without default value a RuntimeError
+example : ((poscDb.addCategoryFull 7 (Sym.ofString "volume") none none 1 false (some 1) (some 2) none false false).toOption.isSome,
+           (poscDb.addCategoryFull 7 (Sym.ofString "volume") none none 1 false (some 1) (some 2) (some 1) false false).toOption.isSome,
+           (poscDb.addCategoryFull 7 (Sym.ofString "volume") none none 1 false none (some 2) none true false).toOption.isSome,
+           (poscDb.addCategoryFull 7 (Sym.ofString "volume") none none 1 false none (some 2) none false false).toOption.map
+              (fun d => (d.catByName 7).map (·.defaultValue)))
+    = (false, false, false, some (some 2)) := by decide +kernel
+example : poscDb.getUnitName (Sym.ofString "volume") (Sym.ofString "1000ft3")
+    = poscDb.getUnitName (Sym.ofString "volume") (Sym.ofString "Mcf")
+    ∧ (poscDb.getUnitName (Sym.ofString "volume") (Sym.ofString "Mcf")).toOption.isSome = true := by
+  decide +kernel
+
 end Barril
